@@ -93,8 +93,8 @@ def tla_set(xs):
 def mc_cfg(s, kf1, kf2, env="scripted", dim=0, resid=(0, 1, 4, 8), lsn=("one", "two", "small"), emit=True,
            live=True):
     n, d = s["tol"]
-    if n != 1 or d & (d - 1):
-        raise ValueError("bounded models use absTOL = 2^-k")
+    if n not in (0, 1) or d & (d - 1):
+        raise ValueError("bounded models use absTOL = 2^-k or 0")
     props = ["INVARIANT DoneOK", "INVARIANT LinearSolved", "INVARIANT BisectAgainDead",
              "INVARIANT AttemptInRange", "PROPERTY ReportedEquilibrated", "PROPERTY IncrementsIncreasing",
              "PROPERTY Snapshots"]
@@ -105,7 +105,7 @@ def mc_cfg(s, kf1, kf2, env="scripted", dim=0, resid=(0, 1, 4, 8), lsn=("one", "
             " ResidAlphabet <- MC_Resid\n LSAlphabet <- MC_LS\n"
             + common_consts(s, kf1, kf2) +
             " TolExp = %d\n ResidHalves = %s\n LSNames = %s\n EmitEdges = %s\n Env = \"%s\" Dim = %d\n"
-            % (d.bit_length() - 1, tla_set(resid), tla_set(lsn), tb(emit), env, dim)
+            % (1000 if n == 0 else d.bit_length() - 1, tla_set(resid), tla_set(lsn), tb(emit), env, dim)
             + "\n".join(props) + "\nCHECK_DEADLOCK FALSE\n")
 
 
@@ -153,7 +153,26 @@ class Problem:
     def __init__(self):
         self.calls = []
         self.arrays = []
+        self.kept = []
         self.n = 0
+
+    @staticmethod
+    def _content(o):
+        if hasattr(o, "toarray"):
+            return np.array(o.toarray(), dtype=float)
+        return np.array(o, dtype=float)
+
+    def keep(self, o):
+        """remember what was handed to the driver (object and content) -> untouched() after the run"""
+        self.kept.append((o, self._content(o).copy()))
+        return o
+
+    def untouched(self):
+        for o, c0 in self.kept:
+            c1 = self._content(o)
+            if c1.shape != c0.shape or not np.array_equal(c1, c0, equal_nan=True):
+                return 0
+        return 1
 
     def tick(self):
         self.n += 1
@@ -167,6 +186,8 @@ class Problem:
         for a in (carr, out):
             if isinstance(a, np.ndarray):
                 self.arrays.append(a)
+        if out is not None:
+            self.keep(out)
 
     def leftover(self):
         return 0
@@ -191,7 +212,7 @@ class Scripted(Problem):
     def __init__(self, script, tol, dim=2, linear=False):
         Problem.__init__(self)
         self.script = list(script)
-        self.tol = Fraction(tol[0], tol[1])
+        self.tol = Fraction(tol[0], tol[1]) if tol[0] else Fraction(1, 1024)     # residual unit (absTOL = 0: 2^-10)
         self.dim = dim
         self.linear = linear
         self.pos = 0
@@ -214,14 +235,14 @@ class Scripted(Problem):
     def k0(self, silent=False, **kw):
         self.tick()
         self.rec("k0", ret=dy(4.0))
-        return diag(4.0, self.dim)
+        return self.keep(diag(4.0, self.dim))
 
     def kT(self, c=None, inc=None, silent=False, **kw):
         self.tick()
         scale = 4.0 if self.linear else 2.0 ** ((self.nkt % 3) - 1)
         self.nkt += 1
         self.rec("kT", inc, c=c, ret=dy(scale), carr=c)
-        return diag(scale, self.dim)
+        return self.keep(diag(scale, self.dim))
 
     def fint(self, c=None, inc=None, silent=False, **kw):
         self.tick()
@@ -286,7 +307,7 @@ class Spring(Problem):
     def g(self, c):
         return self.K * (c + self.a2 * c * c + self.a3 * c * c * c)
 
-    def fext(self, inc=None, silent=False, **kw):
+    def fext(self, inc=1.0, silent=False, **kw):
         self.tick()
         out = np.array([inc * self.F])
         self.rec("fext", inc, ret=dyv(out), out=out)
@@ -332,7 +353,7 @@ class Wrapped(Problem):
         self.k0mat = None
 
     def cid(self, a):
-        return self.ids.setdefault(np.asarray(a, dtype=float).tobytes(), len(self.ids) + 1)
+        return self.ids.setdefault(np.asarray(a, dtype=float).ravel().tobytes(), len(self.ids) + 1)
 
     def fext(self, inc=None, silent=False, **kw):
         self.tick()
@@ -373,6 +394,109 @@ class Wrapped(Problem):
                 for lam, c in zip(incs, cs)]
 
 
+
+def _forms():
+    from scipy.sparse import csr_matrix, csc_matrix, coo_matrix
+    return {"csr": csr_matrix, "csc": csc_matrix, "coo": coo_matrix, "dense": np.asarray, "npmatrix": np.matrix,
+            "lil": lambda m: csr_matrix(m).tolil(), "dia": lambda m: csr_matrix(m).todia(),
+            "bsr": lambda m: csr_matrix(m).tobsr()}
+
+
+class Spring2(Problem):
+    """two uncoupled stiffening springs fint_i = K (c_i + a3 c_i^3), fext = l F; tangent = one power of two times I
+    (so solve is exact and Trace_NewtonRaphson recomputes every vector).  The SAME values are handed to the
+    driver in different containers: matrices as csr/csc/coo/lil/dia/bsr/dense/np.matrix, vectors 1-D or as a
+    column; a view into a larger buffer is handed out for fext/fint (the driver must not write into it)."""
+
+    def __init__(self, K, a3, F, kform="csr", vform="1d"):
+        Problem.__init__(self)
+        self.K, self.a3 = float(K), float(a3)
+        self.F = np.array(F, dtype=float)
+        self.kf = _forms()[kform]
+        self.vform = vform
+        self.buf = []
+
+    def g(self, c):
+        return self.K * (c + self.a3 * c * c * c)
+
+    def vec(self, v):
+        big = np.full(len(v) + 4, 9.5)          # hand out a VIEW into a larger buffer
+        big[2:2 + len(v)] = v
+        self.buf.append(big)
+        out = big[2:2 + len(v)]
+        return out.reshape(-1, 1) if self.vform == "col" else out
+
+    def mat(self, scale):
+        return self.keep(self.kf(np.eye(len(self.F)) * scale))
+
+    def fext(self, inc=1.0, silent=False, **kw):
+        self.tick()
+        out = self.vec(inc * self.F)
+        self.rec("fext", inc, ret=dyv(out), out=out)
+        return out
+
+    def k0(self, silent=False, **kw):
+        self.tick()
+        self.rec("k0", ret=dy(self.K))
+        return self.mat(self.K)
+
+    def kT(self, c=None, inc=None, silent=False, **kw):
+        self.tick()
+        x = np.asarray(c, dtype=float).ravel()
+        t = float(np.mean(self.K * (1 + 3 * self.a3 * x * x)))
+        scale = 2.0 ** round(math.log2(t))
+        self.rec("kT", inc, c=x, ret=dy(scale), carr=c)
+        return self.mat(scale)
+
+    def fint(self, c=None, inc=None, silent=False, **kw):
+        self.tick()
+        x = np.array(c, dtype=float).ravel()
+        out = self.vec(self.g(x))
+        self.rec("fint", inc, c=x, ret=dyv(out), carr=c, out=out)
+        return out
+
+    def untouched(self):
+        ok = Problem.untouched(self)
+        for big in self.buf:                    # the surroundings of every view
+            if not (big[:2] == 9.5).all() or not (big[-2:] == 9.5).all():
+                return 0
+        return ok
+
+    def reevaluate(self, incs, cs):
+        return [float(np.abs(lam * self.F - self.g(np.asarray(c, dtype=float).ravel())).max()) for lam, c in zip(incs, cs)]
+
+
+class Holder:
+    """minimal stand-in for an Analysis-like owner of four callables (Wrapped reads calc_*)"""
+
+    def __init__(self, fext, k0, fint, kT):
+        self.calc_fext, self.calc_k0, self.calc_fint, self.calc_kT = fext, k0, fint, kT
+
+
+def float32_problem(K, a3, F):
+    """the same springs with float32 vectors: outside the binary64 model, judged in opaque mode (content ids,
+    logged residual maxima, re-evaluated equilibrium)"""
+    from scipy.sparse import csr_matrix
+    F = np.array(F, dtype=np.float32)
+
+    def g(c):
+        c = np.asarray(c, dtype=np.float32)
+        return (np.float32(K) * (c + np.float32(a3) * c * c * c)).astype(np.float32)
+
+    def fext(inc=1.0, silent=False):
+        return (np.float32(inc) * F).astype(np.float32)
+
+    def k0(silent=False):
+        return csr_matrix(np.eye(len(F)) * K)
+
+    def kT(c=None, inc=1.0, silent=False):
+        return csr_matrix(np.diag(K * (1 + 3 * a3 * np.asarray(c, dtype=float) ** 2)))
+
+    def fint(c=None, inc=1.0, silent=False):
+        return g(c)
+    return Wrapped(Holder(fext, k0, fint, kT))
+
+
 # ----------------------------------------------------------------------------------------
 # running the real driver
 
@@ -401,10 +525,16 @@ def run_driver(s, prob, rid, expect=None, analysis=None, static=None):
                 err = str(e)
             except Exception as e:       # the driver itself failed
                 err = "exception %s: %s" % (type(e).__name__, str(e)[:200])
+    return collect(prob, analysis, rid, err, expect)
+
+
+def collect(prob, analysis, rid, err="", expect=None):
+    """run record of what the analysis object holds after a run made through the recorder `prob`"""
+    untouched = prob.untouched()        # before the scribbling: did the driver write into what the callables returned?
     prob.scribble()
     try:
         incs = [float(x) for x in (analysis.increments or [])]
-        cs = [np.array(x, dtype=float).copy() for x in (analysis.cs or [])]
+        cs = [np.array(x, dtype=float).ravel().copy() for x in (analysis.cs or [])]
         if prob.mode == "opaque":
             prob.finish()
             csl = [[dy(prob.cid(c))] for c in cs]
@@ -412,9 +542,10 @@ def run_driver(s, prob, rid, expect=None, analysis=None, static=None):
             csl = [dyv(c) for c in cs]
         equil = prob.reevaluate(incs, cs[:len(incs)])
         ret = dict(error=err, increments=[dy(x) for x in incs], cs=csl, equil=[dy(x) for x in equil],
-                   leftover=prob.leftover())
+                   leftover=prob.leftover(), untouched=untouched)
     except Exception as e:
-        ret = dict(error=(err + " / result unreadable: %s" % e)[:300], increments=[], cs=[], equil=[], leftover=0)
+        ret = dict(error=(err + " / result unreadable: %s" % e)[:300], increments=[], cs=[], equil=[], leftover=0,
+                   untouched=untouched)
         incs = []
     rec = dict(id=rid, mode=prob.mode, calls=prob.calls, ret=ret,
                expect=expect or dict(on=0, increments=[], acts=[]))
@@ -630,9 +761,9 @@ def mc_lattice(tier):
     R4 = (0, 1, 4, 8)           # residuals {0, 1/2, 2, 4} absTOL
     R5 = (0, 1, 2, 4, 8)
     if tier == "quick":
-        L.append(("base", S(), "scripted", 0, (1, 2, 4, 8), (), True, 120))      # 2: Rmax = absTOL exactly (boundary of <)
+        L.append(("base", S(), "scripted", 0, (1, 2, 4, 8), (), True, 80))      # 2: Rmax = absTOL exactly (boundary of <)
         L.append(("fullNR", S(mod=False, kt0=False, every=1, maxNumIter=4, minInc=(1, 8)), "scripted", 0, R4, (), True, 80))
-        L.append(("ls", S(ls=True, maxIterLS=2), "scripted", 0, (0, 1, 4), ("one", "two", "small"), True, 120))
+        L.append(("ls", S(ls=True, maxIterLS=2), "scripted", 0, (0, 1, 4), ("one", "two", "small"), True, 80))
         L.append(("ls3", S(ls=True, maxIterLS=3, mod=False, init=(1, 2), minInc=(1, 4)), "scripted", 0, (0, 4, 8),
                   ("one", "flat", "third"), True, 80))
         L.append(("full1", S(init=(1, 1), minInc=(1, 8), every=1), "scripted", 0, R4, (), True, 80))
@@ -641,6 +772,12 @@ def mc_lattice(tier):
         L.append(("slow", S(init=(1, 2), slow=(1, 2), maxNumIter=4, minInc=(1, 8), kt0=False), "scripted", 0, (1, 4, 6, 8), (), True, 60))
         # minInc = 0.09 = 0.3*0.3 in binary64: the first bisection lands exactly on minInc (boundary of inc < minInc)
         L.append(("edge", S(minInc=(9, 100)), "scripted", 0, (1, 4, 8), (), True, 40))
+        # coincidences: initialInc = minInc; maxNumIter = 1 (nothing can converge); absTOL = 0; the first attempt
+        # 1e-3 below / above full load (0.999: |total-1| is one ulp above 1e-3; 1.001: below it)
+        L.append(("minEq", S(init=(1, 8), minInc=(1, 8)), "scripted", 0, (1, 4, 8), (), True, 25))
+        L.append(("mni1", S(maxNumIter=1, minInc=(1, 8)), "scripted", 0, (0, 4), (), True, 10))
+        L.append(("tol0", S(tol=(0, 1), minInc=(1, 8), maxNumIter=4), "scripted", 0, (0, 4), (), True, 15))
+        L.append(("near+", S(init=(1001, 1000), minInc=(1, 8)), "scripted", 0, (1, 4), (), True, 15))
         L.append(("short", S(init=(119, 250), minInc=(1, 8)), "scripted", 0, (1, 4), (), True, 30))
     else:
         for init in ((3, 10), (1, 2), (1, 1)):
@@ -661,6 +798,13 @@ def mc_lattice(tier):
         L.append(("t-slow", S(init=(1, 2), slow=(1, 2), maxNumIter=4, minInc=(1, 8)), "scripted", 0, (1, 4, 6, 8), (), True, 100))
         L.append(("t-slow35", S(init=(1, 2), slow=(3, 5), maxNumIter=5, minInc=(1, 8), every=3), "scripted", 0, (1, 4, 6, 8), (), True, 100))
         L.append(("t-edge", S(minInc=(9, 100)), "scripted", 0, (1, 2, 4, 8), (), True, 60))
+        L.append(("t-minEq", S(init=(1, 20), minInc=(1, 20)), "scripted", 0, R5, (), True, 40))
+        L.append(("t-mni1", S(maxNumIter=1), "scripted", 0, R4, (), True, 20))
+        L.append(("t-mni2ls", S(maxNumIter=2, ls=True, minInc=(1, 8)), "scripted", 0, (0, 1, 4), ("one", "two", "flat"), True, 40))
+        L.append(("t-tol0", S(tol=(0, 1), maxNumIter=4), "scripted", 0, (0, 1, 4), (), True, 30))
+        L.append(("t-tol0ls", S(tol=(0, 1), maxNumIter=3, ls=True, minInc=(1, 8)), "scripted", 0, (0, 4), ("one", "third"), True, 30))
+        L.append(("t-near", S(init=(999, 1000), minInc=(1, 20)), "scripted", 0, R4, (), True, 40))
+        L.append(("t-near+", S(init=(1001, 1000), minInc=(1, 20)), "scripted", 0, R4, (), True, 40))
         L.append(("t-short", S(init=(119, 250), minInc=(1, 20)), "scripted", 0, R4, (), True, 60))
         L.append(("t-maxinc", S(init=(1, 8), maxInc=(1, 4), minInc=(1, 16)), "scripted", 0, (1, 4, 8), (), True, 60))
         L.append(("t-dim2", S(minInc=(1, 8), maxNumIter=3), "scripted", 2, (1, 4, 8), (), False, 0))
@@ -669,12 +813,11 @@ def mc_lattice(tier):
         L.append(("t-deep1", S(init=(1, 1), minInc=(1, 30)), "scripted", 0, R5, (), True, 150))
     # linear problems (deterministic, one behaviour each): the method switches
     if tier == "quick":
-        lin = [((3, 10), False, True, 2, True), ((3, 10), True, False, 1, False), ((1, 1), True, True, 2, True),
-               ((1, 1), False, False, 1, False), ((2, 1), False, True, 2, True), ((2, 1), True, False, 1, False),
-               ((119, 250), False, False, 2, True), ((119, 250), True, True, 6, False)]
+        lin = [((3, 10), False, True, 2, True), ((1, 1), True, False, 1, False), ((2, 1), False, True, 2, True),
+               ((119, 250), True, True, 6, False), ((999, 1000), False, True, 2, True), ((1001, 1000), True, False, 1, False)]
     else:
         lin = [(init, ls, mod, every, kt0)
-               for init in ((3, 10), (1, 1), (2, 1), (119, 250), (1, 8), (7, 10)) for ls in (False, True)
+               for init in ((3, 10), (1, 1), (2, 1), (119, 250), (1, 8), (7, 10), (999, 1000), (1001, 1000)) for ls in (False, True)
                for mod, every, kt0 in ((True, 2, True), (True, 6, False), (False, 1, False), (False, 2, True))]
     for init, ls, mod, every, kt0 in lin:
         L.append(("lin-%s-%s-%s%d" % (init, ls, mod, every),
@@ -712,6 +855,21 @@ def panel_cases(tier):
     if tier != "quick":
         cases += [dict(model="cpanel_clt_donnell_bardell", m=4, n=4, P=20000., wload=20.0, init=(1, 2), maxNumIter=5),
                   dict(model="plate_clt_donnell_bardell", m=5, n=5, P=3000., wload=1.0, init=(1, 2), maxNumIter=6)]
+    return cases
+
+
+def conecyl_cases(tier):
+    cases = [dict(model="clpt_donnell_bc1", m1=6, m2=3, n2=4, spl=10, fc=-15., init=(1, 2), maxNumIter=30)]
+    if tier != "quick":
+        cases += [dict(model="clpt_donnell_bc1", m1=6, m2=3, n2=4, spl=300, fc=-3000., init=(1, 1), maxNumIter=3),
+                  dict(model="fsdt_donnell_bc1", m1=5, m2=3, n2=3, spl=10, fc=-15., init=(3, 10), maxNumIter=30)]
+    return cases
+
+
+def assembly_cases(tier):
+    cases = [dict(npanels=2, m=4, n=4, Nxx=-20000., spla=20., init=(1, 2), maxNumIter=8)]
+    if tier != "quick":
+        cases += [dict(npanels=3, m=4, n=4, Nxx=-200000., spla=200., init=(1, 1), maxNumIter=4)]
     return cases
 
 
@@ -759,6 +917,216 @@ def run_panel(case, rid):
     return s, rec, incs
 
 
+
+def run_wrapped(analysis, s, rid, static=None):
+    """wrap the four callables of an Analysis that belongs to a real structural object and run it"""
+    prob = Wrapped(analysis)
+    analysis.calc_fext, analysis.calc_k0, analysis.calc_fint, analysis.calc_kT = prob.fext, prob.k0, prob.fint, prob.kT
+    return run_driver(s, prob, rid, analysis=analysis, static=static)
+
+
+def run_conecyl(case, rid):
+    """ConeCyl.static(NLgeom=True) (line search switched off: opaque runs do not model it)"""
+    from compmech.conecyl import ConeCyl
+    cc = ConeCyl()
+    cc.model = case["model"]
+    cc.m1, cc.m2, cc.n2 = case["m1"], case["m2"], case["n2"]
+    cc.name = "Z33"
+    cc.laminaprop = (123.55e3, 8.708e3, 0.319, 5.695e3, 5.695e3, 5.695e3)
+    cc.stack = [0, 0, 19, -19, 37, -37, 45, -45, 51, -51]
+    cc.plyt = 0.125
+    cc.r2 = 250.
+    cc.H = 510.
+    cc.add_SPL(case["spl"], increment=False)
+    for thetadeg in np.linspace(0, 360, 40, endpoint=False):
+        cc.add_force(0., thetadeg, case["fc"], 0, 0, increment=True)
+    s = S(init=case["init"], minInc=(1, 1000), tol=(1, 1000), slow=(1, 100), maxNumIter=case["maxNumIter"],
+          maxIterLS=20, every=6, ls=False, mod=True, kt0=True)
+    rec, incs = run_wrapped(cc.analysis, s, rid, static=lambda: cc.static(NLgeom=True, silent=True))
+    return s, rec, incs
+
+
+def run_assembly(case, rid):
+    """a PanelAssembly (cylinder made of panels joined by penalty connections) driven through Analysis, as
+    compmech.panel.assembly.cylinder.cylinder_spla does"""
+    from compmech.panel.assembly.cylinder import create_cylinder_assy
+    analysis_cls = analysis_module().Analysis
+    assy, conns = create_cylinder_assy(height=0.5, r=0.25, stack=[0, 45, -45, 90, 90, -45, 45, 0], plyt=1.25e-4,
+                                       laminaprop=(142.5e9, 8.7e9, 0.28, 5.1e9, 5.1e9, 5.1e9),
+                                       npanels=case["npanels"], m=case["m"], n=case["n"])
+    for p in assy.panels:
+        p.u2tx = 1
+        nf = 12
+        fx = case["Nxx"] * p.b / (nf - 1.)
+        for i in range(nf):
+            p.add_force(p.a, i * p.b / (nf - 1.), fx / 2. if i in (0, nf - 1) else fx, 0, 0, cte=False)
+    p0 = assy.panels[0]
+    p0.add_force(p0.a / 2, p0.b / 2, 0, 0, -case["spla"], cte=True)
+    assy.conn = conns
+    a = analysis_cls(assy.calc_fext, assy.calc_k0, assy.calc_fint, assy.calc_kT)
+    s = S(init=case["init"], minInc=(1, 1000), tol=(1, 1000), slow=(1, 100), maxNumIter=case["maxNumIter"],
+          maxIterLS=20, every=6, ls=False, mod=False, kt0=False)
+    rec, incs = run_wrapped(a, s, rid)
+    return s, rec, incs
+
+
+# ----------------------------------------------------------------------------------------
+# histories on ONE Analysis object (spec/ctrl/AnalysisDispatch.tla, spec/trace/Trace_AnalysisDispatch.tla)
+
+KF3 = "KF_C09_MaxIncRatchets"
+DEFAULTS = dict(initialInc=(3, 10), minInc=(1, 1000), maxInc=(1, 1), absTOL=(1, 1000), too_slow_TOL=(1, 100),
+                maxNumIter=30, max_iter_line_search=20, compute_every_n=6, line_search=True, modified_NR=True,
+                kT_initial_state=True, NL_method="NR")
+DISPATCH_SPRING = (1.0, 0.0, 1.0, 1.0)      # K, a2, a3, F: stiffening, converges, so the increment limits decide the history
+
+
+def set_attr(a, name, val):
+    setattr(a, name, fl(val) if isinstance(val, tuple) else val)
+
+
+def fixed_histories():
+    H = []
+    H.append([("set", "initialInc", (3, 10)), ("set", "maxInc", (1, 10)), ("static", True),
+              ("set", "initialInc", (1, 20)), ("static", True)])                       # the ratchet
+    H.append([("static", False), ("static", True), ("static", False), ("static", True)])
+    H.append([("set", "maxInc", (1, 4)), ("set", "initialInc", (1, 2)), ("static", False), ("static", True), ("static", False)])
+    H.append([("set", "NL_method", "arc_length"), ("static", True), ("set", "NL_method", "NR"), ("static", True)])
+    H.append([("set", "NL_method", "newton"), ("static", True), ("static", False), ("set", "NL_method", "NR"),
+              ("set", "initialInc", (2, 1)), ("static", True), ("set", "initialInc", (1, 2)), ("static", True)])
+    H.append([("set", "initialInc", (1, 1)), ("set", "minInc", (1, 1)), ("static", True),
+              ("set", "maxNumIter", 1), ("static", True), ("set", "maxNumIter", 30), ("static", True)])
+    H.append([("set", "line_search", False), ("set", "modified_NR", False), ("set", "kT_initial_state", False),
+              ("static", True), ("set", "absTOL", (1, 64)), ("set", "line_search", True), ("static", True),
+              ("static", False)])
+    return H
+
+
+def random_history(rng):
+    ops = []
+    n = rng.randint(4, 8)
+    for _ in range(n):
+        k = rng.random()
+        if k < 0.4:
+            ops.append(("static", rng.random() < 0.75))
+        elif k < 0.6:
+            ops.append(("set", "initialInc", rng.choice([(1, 20), (3, 10), (1, 2), (1, 1), (2, 1)])))
+        elif k < 0.72:
+            ops.append(("set", "maxInc", rng.choice([(1, 10), (1, 4), (1, 1)])))
+        elif k < 0.8:
+            ops.append(("set", "NL_method", rng.choice(["NR", "NR", "arc_length", "newton"])))
+        else:
+            name = rng.choice(["minInc", "maxNumIter", "absTOL", "line_search", "modified_NR", "kT_initial_state"])
+            val = {"minInc": rng.choice([(1, 1000), (1, 50)]), "maxNumIter": rng.choice([3, 6, 30]),
+                   "absTOL": rng.choice([(1, 1024), (1, 64), (1, 1000)])}.get(name)
+            ops.append(("set", name, rng.random() < 0.5 if val is None else val))
+    ops += [("static", True)] * max(0, 2 - sum(1 for o in ops if o[0] == "static"))
+    return ops
+
+
+def nl_call(a, nlgeom):
+    prob = Spring(*DISPATCH_SPRING)
+    a.calc_fext, a.calc_k0, a.calc_fint, a.calc_kT = prob.fext, prob.k0, prob.fint, prob.kT
+    res = None
+    with warnings.catch_warnings():
+        warnings.simplefilter("ignore")
+        with np.errstate(all="ignore"):
+            try:
+                res = a.static(NLgeom=nlgeom, silent=True)
+                outcome = "ok"
+            except Exception as e:
+                outcome = type(e).__name__
+    return prob, res, outcome
+
+
+def observed(a, outcome):
+    from compmech.sparse import solve
+    ref = Spring(*DISPATCH_SPRING)          # the linear solution K^-1 fext() of the problem, from the callables
+    with np.errstate(all="ignore"):
+        lin = solve(ref.k0(), ref.fext(), silent=True)
+    return dict(outcome=outcome, incs=[dy(x) for x in (a.increments or [])],
+                cs=[dyv(c) for c in (a.cs or [])], maxIncAfter=dy(a.maxInc), last=str(a.last_analysis), lin=dyv(lin))
+
+
+def play_history(ops, hid, rid0):
+    """run the operations on one object; for every static() also on reference objects.  Returns the history
+    record for Trace_AnalysisDispatch and the (effective settings, run record) of every successful non-linear
+    call on the used object for Trace_NewtonRaphson"""
+    Analysis = analysis_module().Analysis
+    a = Analysis()
+    assigned = dict(DEFAULTS)
+    sets = []
+    recs = []
+    earlier = []
+    out = []
+    ops = [("set", "initialInc", DEFAULTS["initialInc"]), ("set", "maxInc", DEFAULTS["maxInc"])] + list(ops)
+    for op in ops:
+        if op[0] == "set":
+            _, name, val = op
+            set_attr(a, name, val)
+            assigned[name] = val
+            sets.append((name, val))
+            out.append(dict(op="set", name=name, val=dy(fl(val)) if isinstance(val, tuple) else dy(float(val)) if not isinstance(val, str) else dy(0.0),
+                            sval=val if isinstance(val, str) else ""))
+            continue
+        nlgeom = op[1]
+        attr_before = a.maxInc
+        prob, res, outcome = nl_call(a, nlgeom)
+        obs = observed(a, outcome)
+        obs["sameLists"] = 1 if (res is None or (res[0] is a.increments and res[1] is a.cs)) else 0
+        obs["earlierIntact"] = 1 if all(list(li) == si and len(lc) == len(sc) and all(np.array_equal(x, y) for x, y in zip(lc, sc))
+                                        and li is not a.increments and lc is not a.cs
+                                        for li, lc, si, sc in earlier) else 0
+        if res is not None:
+            earlier.append((res[0], res[1], list(res[0]), [np.array(c).copy() for c in res[1]]))
+        refs = {}
+        for tag in ("fresh", "ratchet"):
+            b = Analysis()
+            for name, val in sets:
+                set_attr(b, name, val)
+            if tag == "ratchet":
+                b.maxInc = attr_before
+            _, _, oc = nl_call(b, nlgeom)
+            refs[tag] = observed(b, oc)
+        out.append(dict(op="static", nlgeom=1 if nlgeom else 0, obs=obs, fresh=refs["fresh"], ratchet=refs["ratchet"]))
+        if nlgeom and outcome == "ok":
+            fr = Fraction(attr_before).limit_denominator(10 ** 6)
+            s_eff = S(init=assigned["initialInc"], minInc=assigned["minInc"], maxInc=(fr.numerator, fr.denominator),
+                      tol=assigned["absTOL"], slow=assigned["too_slow_TOL"], maxNumIter=assigned["maxNumIter"],
+                      maxIterLS=assigned["max_iter_line_search"], every=assigned["compute_every_n"],
+                      ls=assigned["line_search"], mod=assigned["modified_NR"], kt0=assigned["kT_initial_state"])
+            if fl(s_eff["maxInc"]) == attr_before:
+                rec, incs = collect(prob, a, rid0 + len(recs))
+                recs.append((s_eff, rec, incs))
+    return dict(id=hid, ops=out), recs
+
+
+def judge_histories(hist, rep, describe):
+    """literal first (KF off), then the listed deviation"""
+    cfg = "CONSTANTS KF_C09_MaxIncRatchets = %s\n IncValues = {}\n MaxIncValues = {}\n Methods = {}\n"
+    v, results, problems = validate_trace("c09-disp", "Trace_AnalysisDispatch", cfg % "FALSE", hist, nproc=2, timeout=600)
+    for r in results:
+        rep.add_tlc("Trace_AnalysisDispatch", fix_counts(r))
+    for p_ in problems:
+        rep.machinery(p_)
+    bad = [h for h in hist if v.get(h["id"], ("missing",))[0] != "ok"]
+    counts = collections.Counter(ok=len(hist) - len(bad))
+    if bad:
+        v2, results, problems = validate_trace("c09-dispkf", "Trace_AnalysisDispatch", cfg % "TRUE", bad, nproc=2, timeout=600)
+        for r in results:
+            rep.add_tlc("Trace_AnalysisDispatch[kf]", fix_counts(r))
+        for p_ in problems:
+            rep.machinery(p_)
+        for h in bad:
+            w, replay = describe(h["id"])
+            if v2.get(h["id"], ("missing",))[0] == "kf:" + KF3:
+                rep.known(KF3, w)
+                counts[KF3] += 1
+            else:
+                counts["violations"] += 1
+                rep.violation("history on one Analysis object rejected by Trace_AnalysisDispatch: %s; literal: %s; with %s: %s"
+                              % (w, str(v.get(h["id"]))[:500], KF3, str(v2.get(h["id"]))[:500]), replay)
+    return counts
+
 # ----------------------------------------------------------------------------------------
 
 def settings_str(s):
@@ -769,6 +1137,20 @@ def settings_str(s):
 
 
 def run(tier, seed, build):
+    # ~150 short TLC runs: JIT level 1 and two GC threads halve their CPU cost (measured 12.8 -> 6.3 CPU-s for a
+    # 5k-state model, 3.6 -> 1.1 for a 50-state one); inherited by every TLC started below
+    saved = os.environ.get("JAVA_TOOL_OPTIONS")
+    os.environ["JAVA_TOOL_OPTIONS"] = "-XX:TieredStopAtLevel=1 -XX:ParallelGCThreads=2 -XX:CICompilerCount=1"
+    try:
+        return _run(tier, seed, build)
+    finally:
+        if saved is None:
+            os.environ.pop("JAVA_TOOL_OPTIONS", None)
+        else:
+            os.environ["JAVA_TOOL_OPTIONS"] = saved
+
+
+def _run(tier, seed, build):
     rep = Report(PROP, tier, seed)
     rng = random.Random(seed)
     rep.assumptions += [
@@ -789,11 +1171,11 @@ def run(tier, seed, build):
         k, kind = job
         name, s, env, dim, resid, lsn, emit, cap = lattice[k]
         kf = kind != "off"
-        lin = env == "linear"
+        lin = env == "linear" or tier == "quick"      # small models: graph and properties in one run
         res = fix_counts(run_tlc("c09-mc%d%s" % (k, kind), "MC_NewtonRaphson",
                                  mc_cfg(s, kf, kf, env, dim, resid, lsn, emit=(kind == "graph" or (lin and kf)),
                                         live=(kind != "graph")),
-                                 workers=(1 if lin else 4), timeout=3000))
+                                 workers=(1 if env == "linear" else 4), timeout=3000))
         if res.ok and emit and (kind == "graph" or (lin and kf)):
             res.graph = graph_from(res.out)         # parsed here (while other TLC runs are busy); the text is dropped
             res.out = res.out[-4000:]
@@ -802,7 +1184,7 @@ def run(tier, seed, build):
     t0 = time.time()
     jobs = []
     for k, (name, s, env, dim, resid, lsn, emit, cap) in enumerate(lattice):
-        jobs += [(k, "on"), (k, "off")] + ([(k, "graph")] if emit and env != "linear" else [])
+        jobs += [(k, "on"), (k, "off")] + ([(k, "graph")] if emit and env != "linear" and tier != "quick" else [])
     jobs.sort(key=lambda j: lattice[j[0]][2] == "linear")        # long jobs first
     with cf.ThreadPoolExecutor(max_workers=8) as ex:
         done = dict(zip(jobs, ex.map(mc_one, jobs)))
@@ -902,6 +1284,93 @@ def run(tier, seed, build):
         rep.nontrivial(("panel", json.dumps(case, sort_keys=True)))
         groupsB[skey(s)].append(rec)
         rid += 1
+    # the same values in every container the callables may use (matrix formats, column vectors, views); float32
+    sf = S(init=(3, 10), minInc=(1, 100), tol=(1, 4096), maxNumIter=8, every=2, ls=False, mod=True, kt0=True)
+    forms = [(k, "1d") for k in _forms()] + [("csc", "col")]
+    if tier != "quick":
+        forms = [(k, v) for k in _forms() for v in ("1d", "col")]
+    for kform, vform in forms:
+        rec, incs = run_driver(sf, Spring2(2.0, 1.0, [0.5, -0.75], kform, vform), rid)
+        info[rid] = dict(kind="two stiffening springs, matrices as %s, vectors %s (views into larger buffers)" % (kform, vform),
+                         forms=[kform, vform], settings=sf, increments=incs)
+        rep.nontrivial(("forms", kform, vform))
+        groupsB[skey(sf)].append(rec)
+        rid += 1
+    rec, incs = run_driver(sf, float32_problem(2.0, 1.0, [0.5, -0.75]), rid)
+    info[rid] = dict(kind="two stiffening springs with float32 vectors (opaque)", float32=True, settings=sf, increments=incs)
+    groupsB[skey(sf)].append(rec)
+    rid += 1
+    # real structural models besides Panel: ConeCyl.static(NLgeom=True), a PanelAssembly through Analysis
+    for kind, fn, cases in (("ConeCyl.static(NLgeom=True)", run_conecyl, conecyl_cases(tier)),
+                            ("PanelAssembly through Analysis", run_assembly, assembly_cases(tier))):
+        for case in cases:
+            try:
+                s, rec, incs = fn(case, rid)
+            except Exception as e:
+                rep.machinery("%s %s failed to execute: %r" % (kind, case, e))
+                continue
+            info[rid] = dict(kind=kind, case=case, settings=s, increments=incs,
+                             model="conecyl" if fn is run_conecyl else "assembly")
+            rep.nontrivial((kind, json.dumps(case, sort_keys=True)))
+            groupsB[skey(s)].append(rec)
+            rid += 1
+    # histories on one Analysis object (dispatch, what a run leaves behind)
+    dcfg = ("SPECIFICATION MCSpec\nCONSTANTS KF_C09_MaxIncRatchets = %s\n IncValues <- MC_Inc\n MaxIncValues <- MC_MaxInc\n"
+            " Methods <- MC_Meth\n MaxOps = 5\nINVARIANT HistoryIndependent\nINVARIANT LastAnalysisOK\n%s"
+            "PROPERTY HandedKept\nPROPERTY LinearLeavesLimits\nCHECK_DEADLOCK FALSE\n")
+    dvac = () if tier == "quick" else (("TRUE", "INVARIANT NeverRatcheted\n", "vacuity: ratchet reachable"),
+                                       ("TRUE", "INVARIANT NeverRaises\n", "vacuity: raising call reachable"))
+    for kf, extra, name in (("TRUE", "", "code as is"), ("FALSE", "", "literal")) + dvac:
+        res = fix_counts(run_tlc("c09-dmc", "MC_AnalysisDispatch", dcfg % (kf, extra), workers=2, timeout=600))
+        if extra:
+            if res.ok or "is violated" not in res.out:
+                rep.machinery("MC_AnalysisDispatch %s: expected a counterexample, got none" % name)
+        else:
+            rep.add_tlc("MC_AnalysisDispatch[%s]" % name, res)
+            if not res.ok:
+                rep.machinery("TLC on MC_AnalysisDispatch[%s] failed: %s" % (name, res.errors() or res.out[-1500:]))
+    H = fixed_histories() + [random_history(rng) for _ in range(8 if tier == "quick" else 60)]
+    hist = []
+    hinfo = {}
+    ngroups = 0
+    for k, ops in enumerate(H):
+        h, recs = play_history(ops, k, rid)
+        hist.append(h)
+        hinfo[k] = ops
+        for s_eff, rec, incs in recs:
+            if tier == "quick" and skey(s_eff) not in groupsB and ngroups >= 3:
+                rec["id"] = -1      # id is reused below; this run is not validated against NewtonRaphson in the quick tier
+                continue
+            ngroups += skey(s_eff) not in groupsB
+            rec["id"] = rid
+            info[rid] = dict(kind="non-linear run number >= 1 on a used Analysis object, spring %s" % (DISPATCH_SPRING,),
+                             history=[list(o) for o in ops], settings=s_eff, increments=incs)
+            groupsB[skey(s_eff)].append(rec)
+            rid += 1
+    cH = judge_histories(hist, rep, lambda i: ("operations %s" % (hinfo[i],), dict(history=[list(o) for o in hinfo[i]])))
+    rep.cov["histories_on_one_object"] = dict(cH)
+    rep.cov["traces_validated_against_impl"] += len(hist)
+    # binding of the dispatch trace: one-field corruptions of an accepted history must be rejected
+    okh = [h for h in hist if sum(1 for o in h["ops"] if o["op"] == "static" and o["obs"]["outcome"] == "ok" and o["nlgeom"]) >= 2]
+    if okh:
+        cor = []
+        for what, edit in (("one reported load factor", lambda o: o["obs"]["incs"].__setitem__(0, nudge(o["obs"]["incs"][0]))),
+                           ("maxInc left behind", lambda o: o["obs"].__setitem__("maxIncAfter", nudge(o["obs"]["maxIncAfter"]))),
+                           ("last_analysis", lambda o: o["obs"].__setitem__("last", "lb")),
+                           ("outcome", lambda o: o["obs"].__setitem__("outcome", "ValueError")),
+                           ("earlier lists", lambda o: o["obs"].__setitem__("earlierIntact", 0))):
+            h = json.loads(json.dumps(okh[0]))
+            h["id"] = 10 ** 6 + len(cor)
+            edit([o for o in h["ops"] if o["op"] == "static" and o["nlgeom"] and o["obs"]["outcome"] == "ok"][-1])
+            cor.append((what, h))
+        cfgd = "CONSTANTS KF_C09_MaxIncRatchets = %s\n IncValues = {}\n MaxIncValues = {}\n Methods = {}\n"
+        for kf in ("FALSE", "TRUE"):
+            vc, results, problems = validate_trace("c09-dbind", "Trace_AnalysisDispatch", cfgd % kf, [h for _, h in cor], nproc=1)
+            for p_ in problems:
+                rep.machinery(p_)
+            for what, h in cor:
+                if vc.get(h["id"], ("missing",))[0] != "fail":
+                    rep.machinery("dispatch trace specification does not bind %s: verdict %s" % (what, vc.get(h["id"])))
     t0 = time.time()
     idsA = set(range(nA))
     allv, call = judge("c09-tr", groups + [(json.loads(k), rs) for k, rs in groupsB.items()], rep, describe)
@@ -957,6 +1426,16 @@ def run(tier, seed, build):
 def replay(path, build):
     """re-execute a stored replay (one run) and let TLC judge it again"""
     d = json.load(open(path))["replay"]
+    if "history" in d:
+        ops = [tuple(tuple(x) if isinstance(x, list) else x for x in o) for o in d["history"]]
+        h, recs = play_history(ops, 0, 0)
+        rep = Report(PROP, "replay", 0)
+        counts = judge_histories([h], rep, lambda i: ("replayed %s" % path, d))
+        for k, (s_eff, rec, incs) in enumerate(recs):
+            rec["id"] = k
+        _, c2 = judge("c09-replay", [(s_eff, [rec]) for s_eff, rec, incs in recs], rep, lambda i: ("replayed %s" % path, d))
+        print("replay verdict:", dict(counts), dict(c2), dict(rep.kf_seen))
+        return 2 if rep.machinery_errors else (1 if counts["violations"] + c2["violations"] else 0)
     if "settings" not in d:
         print("nothing to re-execute: %s records %s" % (path, d))
         return 1
@@ -968,6 +1447,14 @@ def replay(path, build):
         rec, incs = run_driver(s, prob, 0)
     elif "spring" in d:
         rec, incs = run_driver(s, Spring(*d["spring"]), 0)
+    elif "forms" in d:
+        rec, incs = run_driver(s, Spring2(2.0, 1.0, [0.5, -0.75], *d["forms"]), 0)
+    elif "float32" in d:
+        rec, incs = run_driver(s, float32_problem(2.0, 1.0, [0.5, -0.75]), 0)
+    elif d.get("model") == "conecyl":
+        s, rec, incs = run_conecyl(d["case"], 0)
+    elif d.get("model") == "assembly":
+        s, rec, incs = run_assembly(d["case"], 0)
     else:
         s, rec, incs = run_panel(d["case"], 0)
     rep = Report(PROP, "replay", 0)
